@@ -88,6 +88,11 @@ CLAIMED = {
         text="TLC checks GramDef, IsInverse, Symmetric, PosDef, BonusNonNeg, DimFollowsLayer, Ownership, InitScale over all sequences of <= 4 decisions with integer contexts and lambda in {1/2,1,2}, and the protocol over 8 actions. Real agents with a linear custom actor take decisions (chosen arm observed, gradient feature recomputed independently); after every operation sigma_inv is compared with the spec's rational matrix by TLC; default / MLP actors are validated on the discrete history plus a residual class.",
         note="Trusted: TLC, 1e-6 fixed-point encoding of sigma_inv (tolerance 1.2e-5), residual tolerance 1e-3 for float features. Re-initialisation on mutation is allowed by the property and accepted.",
         design="4/C19"),
+    "C08": dict(
+        technique="TLA+ specs Bellman.tla (tabular exact Bellman target / loss for max, double, actor, actor-min learners; DoneMasks) and Track.tla (target-tracking protocol with policy delay over learn / clone / mutate / load) model-checked by TLC + TLC-dumped grid replayed into the real learn() with tabular custom networks, differential done-masking runs, and tracking traces of real agents validated by TLC",
+        text="TLC checks DoneMasks, TerminalIsReward, Bootstraps, LossDef on the tabular grid (with negative controls that must fail) and TargetTracks / BoundedLag on the protocol. 55k grid cases are replayed into the real DQN / double DQN / CQN / DDPG / TD3 learn() built on table-lookup EvolvableModules (Q(s,a), Y and loss compared exactly), MADDPG/MATD3 joint cases validated as traces, Rainbow and CQN by bit-exact / tolerance differential runs; life-cycle scripts with the real Mutations and checkpoints classify every target tensor as lerp/noop/copy and TLC demands lerp at exactly the protocol's positions.",
+        note="Trusted: TLC, forward hook on the criterion to read Q and Y, tolerance 1e-5 for the lerp classification (tau in {1/2,1/4}), policy_noise=0 in tabular runs. The numeric value of CQN's logsumexp regulariser is not predicted.",
+        design="4/C08, 5"),
 }
 NOT_YET = "check not built yet in this round (planned, see DESIGN.md section 4)"
 
